@@ -14,6 +14,7 @@
 //! The poll-level oracle lives in `model.rs`.
 
 mod model;
+#[cfg(not(feature = "nocoop"))]
 mod threaded;
 
 use common::{json, CaseOut, Rng, Session};
@@ -35,7 +36,30 @@ const ALPHABET: [Op; 10] = [
     Op::DropWriter,
 ];
 
+#[cfg(not(feature = "nocoop"))]
 const MODES: [Mode; 5] = [Mode::Bare, Mode::Budget(1), Mode::Budget(2), Mode::Budget(3), Mode::Budget(4)];
+#[cfg(feature = "nocoop")]
+const MODES: [Mode; 1] = [Mode::Bare];
+#[cfg(not(feature = "nocoop"))]
+const ENGINE: &str = "bytechan";
+#[cfg(feature = "nocoop")]
+const ENGINE: &str = "bytechan_nocoop";
+
+/// Does the linked channel force a yield on a poll that could proceed (the `coop` twin)? 300 one-byte
+/// round trips inside one task poll: the cooperative variant answers `Pending` with the caller's own
+/// waker woken at the latest on the 64th call, the pass-through variant never does.
+fn channel_is_cooperative() -> bool {
+    let mut exec = match Exec::new(1) {
+        Ok(e) => e,
+        Err(_) => return false,
+    };
+    let mut n = 0;
+    let _ = run_task(&mut exec, Mode::Bare, 600, &mut |_e: &Exec| {
+        n += 1;
+        Some(if n % 2 == 1 { Op::Write(1) } else { Op::Read(1) })
+    });
+    exec.stats.forced_yield > 0
+}
 
 fn available(op: Op, reader: bool, writer: bool) -> bool {
     match op {
@@ -137,7 +161,8 @@ fn random_case(rng: &mut Rng, out: &mut CaseOut, depth: usize) {
         1 => *rng.pick(&[4u64, 5, 7, 8, 16, 31, 32, 63, 64]),
         _ => rng.range(1, 64),
     } as usize;
-    let mode = match rng.below(20) {
+    let mode = match rng.below(if cfg!(feature = "nocoop") { 1 } else { 20 }) {
+        _ if cfg!(feature = "nocoop") => Mode::Bare,
         0 => Mode::Budget(1),
         1..=6 => Mode::Bare,
         _ => Mode::Budget(rng.range(2, 8) as usize),
@@ -201,11 +226,21 @@ fn random_case(rng: &mut Rng, out: &mut CaseOut, depth: usize) {
 }
 
 fn main() {
-    let mut s = Session::new("bytechan");
+    let mut s = Session::new(ENGINE);
     if s.prop() != P {
-        s.note(format!("engine bytechan serves only {P}; nothing run for '{}'", s.prop()));
+        s.note(format!("engine {ENGINE} serves only {P}; nothing run for '{}'", s.prop()));
         s.finish();
     }
+    // The two engines differ only in the twin of the channel they link; a build that unified the
+    // features of both (one cargo invocation for both packages) would silently test the same twin twice.
+    let coop = channel_is_cooperative();
+    if coop == cfg!(feature = "nocoop") {
+        s.part("linked-variant", "the channel linked into this engine is the twin it is meant to test", false, 1, |_i, _rng, out| {
+            out.inconclusive(format!("engine {ENGINE} is linked against the {} variant of swimos_byte_channel", if coop { "coop" } else { "pass-through" }));
+        });
+        s.finish();
+    }
+    s.note(format!("linked channel variant: {}", if coop { "coop (default features)" } else { "pass-through (default-features = false)" }));
     let only = s.args.extra.get("only").cloned();
     let want = |name: &str| only.as_deref().map_or(true, |o| o == name);
     let scale = s.args.scale;
@@ -279,6 +314,7 @@ fn main() {
         s.part("poll-random", &rule, false, cases, |_i, rng, out| random_case(rng, out, depth));
     }
 
+    #[cfg(not(feature = "nocoop"))]
     if want("threaded") {
         let cases = s.args.budget(160, 4_000).max(3);
         // 10^5 bytes per case at full scale; proportionally less for Miri / sanitizer passes.
@@ -294,6 +330,7 @@ fn main() {
         );
         s.part("threaded", &rule, false, cases, |_i, rng, out| threaded::case(total, timeout_s, rng, out));
     }
+    #[cfg(not(feature = "nocoop"))]
     if want("close-race") {
         let cases = s.args.budget(32, 800).max(2);
         let rounds = if cfg!(miri) { 3 } else { 250 };
